@@ -177,11 +177,13 @@ def split_outputs(stdout):
 
 
 class Case:
-    __slots__ = ("ops", "origin")
+    __slots__ = ("ops", "origin", "nout")
 
-    def __init__(self, ops, origin="gen"):
+    def __init__(self, ops, origin="gen", nout=None):
         self.ops = ops
         self.origin = origin
+        # number of `=` lines the case produces (differs from len(ops) only for annotated traces)
+        self.nout = len(ops) if nout is None else nout
 
 
 def flatten(cases, stateful):
@@ -209,7 +211,7 @@ def run_side(cmd, cases, stateful, timeout):
         done = 0
         crashed = False
         for ci, c in enumerate(batch):
-            need = len(c.ops) + (1 if stateful else 0)
+            need = c.nout + (1 if stateful else 0)
             got = outs[pos:pos + need]
             if len(got) < need:
                 # the driver died (or timed out) inside this case
@@ -429,7 +431,16 @@ def main():
     if hdrv:
         c_results = run_side([hdrv, prop.ENGINE], cases, stateful, timeout)
     if ok_drv and not os.environ.get("VERIF_IMPL_ONLY"):
-        l_results = run_side([build.drv_path(), prop.ENGINE], cases, stateful, timeout)
+        l_cases = cases
+        if hasattr(prop, "lean_input") and c_results:
+            # recorded-parameter replay (DESIGN §3.2): the model consumes the ops annotated with
+            # what the external engine did on the implementation side
+            l_cases = []
+            for ci, case in enumerate(cases):
+                extras = [ex for _, ex in c_results[ci]["outs"]]
+                extras += [[]] * (len(case.ops) - len(extras))
+                l_cases.append(Case(prop.lean_input(case.ops, extras), case.origin, nout=len(case.ops)))
+        l_results = run_side([build.drv_path(), prop.ENGINE], l_cases, stateful, timeout)
     else:
         proof_problems.append("model driver does not build: " + log_drv[-800:])
 
